@@ -86,8 +86,8 @@ def check(world) -> Dict[str, Any]:
         if exp[0] is None:
             return dict(viol=[], nontrivial=False, outcome="undef", execs=0)
         m = _menu(5 if T > 4 else 4)
-        ta = m.sub({0: items})
-        b_dev = 2 if T > 4 else 1
+        tas = [m.sub({0: [items[k] for k in o]}) for o in ivworlds.row_orders(len(items))]
+        b_dev = (2 if T > 4 else 1) if len(items) <= 3 else 0
     else:
         from mc import htaenv
 
@@ -95,7 +95,7 @@ def check(world) -> Dict[str, Any]:
         exp = {r: expected(its) for r, its in ranks.items()}
         if any(v is None for v in exp.values()):
             return dict(viol=[], nontrivial=False, outcome="undef", execs=0)
-        ta, _ = htaenv.load_world({r: ivworlds.events_for(its) for r, its in ranks.items()})
+        tas = [htaenv.load_world({r: ivworlds.events_for(its) for r, its in ranks.items()})[0]]
         b_dev = 1
 
     def run():
@@ -103,12 +103,19 @@ def check(world) -> Dict[str, Any]:
         return {int(r): float(v) for r, v in zip(df["rank"], df["comp_comm_overlap_pctg"])}
 
     outcome = None
-    for plan, res in nondet.explore_ties(run, max_dev=b_dev):
+    def all_runs():
+        nonlocal ta
+        for k, ta in enumerate(tas):
+            for plan, res in nondet.explore_ties(run, max_dev=b_dev if k == 0 else 0, with_reverse=(k == 0), cap=16):
+                yield (plan if k == 0 else ("row-order", plan)), res
+
+    ta = tas[0]
+    for plan, res in all_runs():
         execs += 1
         for r, e in exp.items():
             got = res.get(r)
             if got is None or not (abs(got - e) <= 0.005 + 1e-9) or not (0 <= got <= 100):
-                viol.append((f"overlap-mismatch/{'stable' if plan == 'stable' else 'tie-order'}",
+                viol.append((f"overlap-mismatch/{'stable' if plan == 'stable' else ('row-order' if isinstance(plan, tuple) else 'tie-order')}",
                              dict(plan=plan, rank=r, expected=e, got=got)))
         if outcome is None:
             outcome = tuple(sorted(res.items()))
